@@ -107,8 +107,17 @@ Record InvX (L : regs) (root : node) : Prop := {
   invx_inv : Inv L root;
   invx_dom : forall es, exists_at root es <->
       es = [] \/ exists x es_b vfs, In x L /\ compiled (fst x) (snd x) es_b vfs /\ is_prefix (keys es) (keys es_b) = true;
-  invx_info : forall es i key m, info_at root es = Some i -> (stored i key m <-> at_node L es key m)
+  invx_info : forall es i key m, info_at root es = Some i -> (stored i key m <-> at_node L es key m);
+  invx_nodup : forall es i, info_at root es = Some i -> NoDup (map fst (fst i))
 }.
+
+Lemma NoDup_app_snoc {A} (l : list A) x : NoDup l -> ~ In x l -> NoDup (l ++ [x]).
+Proof.
+  induction 1 as [|y l Hy Hl IH]; intros Hx; cbn; [repeat constructor; auto|].
+  constructor.
+  - intros H. apply in_app_or in H. destruct H as [H|[H|[]]]; [contradiction|]. subst. apply Hx. now left.
+  - apply IH. intros H. apply Hx. now right.
+Qed.
 
 Lemma InvX_empty : InvX [] empty_node.
 Proof.
@@ -118,6 +127,27 @@ Proof.
   - intros es i key m H. apply info_at_empty in H. subst i. split.
     + intros Hs. now apply stored_empty in Hs.
     + intros (x & _ & _ & [] & _).
+  - intros es i H. apply info_at_empty in H. subst i. constructor.
+Qed.
+
+Lemma assoc_none_notin {A} k (l : list (str * A)) : assoc k l = None -> ~ In k (map fst l).
+Proof.
+  induction l as [|[k' v] l IH]; cbn; [tauto|]. destruct (str_eqb k' k) eqn:E; [discriminate|].
+  intros H [X|X]; [apply str_eqb_neq in E; contradiction|now apply IH].
+Qed.
+Lemma leaf_nodup mid b vfs nd nd' :
+  Trie.leaf resolves body_ok resp_ok mid b vfs nd = Ok nd' -> NoDup (map fst (n_meths nd)) -> NoDup (map fst (n_meths nd')).
+Proof.
+  intros H Hn. unfold Trie.leaf in H.
+  destruct (match n_mall nd with Some y => conflict mid y | None => false end); [discriminate|].
+  destruct (str_eqb (b_verb b) star_verb).
+  - destruct (existsb _ _); [discriminate|]. destruct (n_mall nd).
+    + inversion H; subst; auto.
+    + destruct (_ && _); [|discriminate]. cbn in H. inversion H; subst; auto.
+  - destruct (assoc (b_verb b) (n_meths nd)) eqn:Ea.
+    + destruct (conflict mid m); [discriminate|]. inversion H; subst; auto.
+    + destruct (_ && _); [|discriminate]. cbn in H. inversion H; subst. cbn [n_meths].
+      rewrite map_app. cbn. apply NoDup_app_snoc; auto. now apply assoc_none_notin.
 Qed.
 
 Lemma stored_fun i key m m' : assoc star_verb (fst i) = None -> stored i key m -> stored i key m' -> m = m'.
@@ -136,12 +166,12 @@ Qed.
 Theorem InvX_step L root mid b root' :
   InvX L root -> Distinct ((mid, b) :: L) -> add_binding mid root b = Ok root' -> InvX ((mid, b) :: L) root'.
 Proof.
-  intros [HI Hd Hi] HD H.
+  intros [HI Hd Hi Hnd] HD H.
   pose proof (Inv_step isLetter isNumber resolves body_ok resp_ok L root mid b root' HI H) as HI'.
   destruct (add_binding_inv isLetter isNumber resolves body_ok resp_ok _ _ _ _ H) as (es0 & vfs & leaf' & Hc & Hu & Hl & Hw & Hlen & Hg).
   pose proof (leaf_keeps resolves body_ok resp_ok mid b vfs) as Hk.
   destruct (leaf_spec resolves body_ok resp_ok _ _ _ _ _ Hl) as (S1 & S2 & S3).
-  constructor; [exact HI'| |].
+  constructor; [exact HI'| | |].
   - intros es. rewrite (upd_exists es0 _ _ _ es Hk Hu), Hd. split.
     + intros [[E|(x & eb & vb & A & B & C)]|P]; auto.
       * right. exists x, eb, vb. split; [now right|auto].
@@ -191,6 +221,14 @@ Proof.
         -- exfalso. assert (Hex : exists_at root es).
            { apply Hd. right. exists x, eb, vb. split; [exact A|]. split; [exact B|]. rewrite C. apply is_prefix_refl. }
            unfold exists_at, info_at in *. destruct (walk_to es root); [discriminate|now apply Hex].
+  - intros es i Hinfo.
+    destruct (upd_info_inv es0 _ _ _ leaf' es i Hk Hu Hl Hinfo) as [[E1 E2]|[E|E]].
+    + subst i. cbn [info fst]. eapply leaf_nodup; [exact Hl|].
+      destruct (info_at root es0) as [i0|] eqn:Ei0.
+      * pose proof (Hnd es0 i0 Ei0) as X. now rewrite (info_leaf_of _ _ _ Ei0) in X.
+      * rewrite (info_leaf_none _ _ Ei0). constructor.
+    + eauto.
+    + subst i. constructor.
 Qed.
 
 
